@@ -9,7 +9,7 @@ use opcua::core::comms::message_chunk::{MessageChunk, MessageChunkType, MessageI
 use opcua::core::comms::secure_channel::{Role, SecureChannel};
 use opcua::crypto::CertificateStore;
 use opcua::core::comms::tcp_codec::Message;
-use opcua::core::comms::tcp_types::ErrorMessage;
+use opcua::core::comms::tcp_types::{AcknowledgeMessage, ErrorMessage, HelloMessage, MessageHeader, MessageType};
 use opcua::core::supported_message::SupportedMessage;
 use opcua::sync::RwLock;
 use opcua::types::*;
@@ -36,7 +36,7 @@ impl Prop for C35 {
 
     fn gen(&self, rng: &mut Rng, n: usize, tier: Tier, out: &mut Vec<String>) {
         for case in 0..n {
-            let max_inflight = *rng.pick(&[1u64, 2, 3, 8]);
+            let max_inflight = *rng.pick(&[0u64, 1, 1, 2, 3, 8]);
             let max_pending = *rng.pick(&[0u64, 1, 2, 5]);
             out.push(format!("reset {} {}", max_inflight, max_pending));
             if tier == Tier::Thorough && case % 50 == 0 {
@@ -45,6 +45,7 @@ impl Prop for C35 {
             }
             // generator-side picture of the world, only to aim the ops
             let mut queued = 0u64;
+            let mut nr_pos: Vec<u64> = Vec::new(); // positions in the channel of no-response messages
             let mut rids: Vec<u64> = Vec::new(); // believed pending
             let mut last_rid = 1000u64;
             let mut seq = 1u64;
@@ -54,7 +55,12 @@ impl Prop for C35 {
                 match rng.weighted(&[6, 6, 10, 2, 2, 1, 1]) {
                     0 => {
                         if queued < 40 {
-                            out.push(format!("submit {}", b(rng.chance(1, 5))));
+                            if rng.chance(1, 8) {
+                                out.push(format!("submitnr {}", b(rng.chance(1, 5))));
+                                nr_pos.push(queued);
+                            } else {
+                                out.push(format!("submit {}", b(rng.chance(1, 5))));
+                            }
                             queued += 1;
                         }
                     }
@@ -63,7 +69,15 @@ impl Prop for C35 {
                         if queued > 0 && (rids.len() as u64) < max_inflight {
                             queued -= 1;
                             last_rid += 1;
-                            rids.push(last_rid);
+                            // messages without a callback take an id but are not registered
+                            let was_nr = nr_pos.contains(&0);
+                            nr_pos.retain(|p| *p != 0);
+                            for p in nr_pos.iter_mut() {
+                                *p -= 1;
+                            }
+                            if !was_nr {
+                                rids.push(last_rid);
+                            }
                         }
                     }
                     2 => {
@@ -132,11 +146,13 @@ impl Prop for C35 {
                         seq = (base + total).max(seq);
                     }
                     3 => {
+                        // time passes for one request: its deadline is now past / near / far
+                        let k = *rng.pick(&[-1000i64, -100, 0, 100, 200, 300, 5000, 80000]);
                         if !rids.is_empty() && rng.chance(3, 4) {
                             let rid = *rng.pick(&rids);
-                            out.push(format!("expire {}", rid));
+                            out.push(format!("deadline {} {}", rid, k));
                         } else {
-                            out.push(format!("expire {}", 1000 + rng.below(8)));
+                            out.push(format!("deadline {} {}", 1000 + rng.below(8), k));
                         }
                     }
                     4 => out.push("sweep".to_string()),
@@ -144,9 +160,10 @@ impl Prop for C35 {
                         let st = *rng.pick(&[0u32, 0x80AE_0000, 0x8005_0000, 0x800A_0000, 0x4000_0000, 0x00A9_0000]);
                         out.push(format!("close {}", st));
                         queued = 0;
+                        nr_pos.clear();
                         rids.clear();
                     }
-                    _ => out.push(format!("errmsg {}", *rng.pick(&[0x8005_0000u32, 0x807D_0000, 0x8001_0000, 0]))),
+                    _ => out.push(format!("errmsg {}", *rng.pick(&["2147811328", "2155675648", "2147549184", "0", "ack", "hello"]))),
                 }
             }
             // a case ends with the transport closing: every request must have completed by then
@@ -164,7 +181,7 @@ impl Prop for C35 {
 /// all interleavings of: 2 requests submitted and pumped, a 2-chunk response for the first, a
 /// 1-chunk response for the second, the first request's deadline passing, and a sweep
 fn exhaustive_small(rng: &mut Rng, out: &mut Vec<String>) {
-    let events = ["chunk 1001 1 C 1 0 2", "chunk 1001 2 F 1 1 2", "chunk 1002 3 F 2 0 1", "expire 1001", "sweep"];
+    let events = ["chunk 1001 1 C 1 0 2", "chunk 1001 2 F 1 1 2", "chunk 1002 3 F 2 0 1", "deadline 1001 -100", "sweep"];
     // one random permutation per call keeps quick runs short; thorough runs call this often
     let mut idx: Vec<usize> = (0..events.len()).collect();
     for i in (1..idx.len()).rev() {
@@ -194,10 +211,17 @@ fn noop_waker() -> Waker {
 enum Outcome {
     Response(u32, String),
     Err(u32),
+    /// `send_no_response` returned Ok: the message is queued
+    Queued,
+}
+
+enum Done {
+    Response(Result<SupportedMessage, StatusCode>),
+    NoResponse(Result<(), StatusCode>),
 }
 
 struct Req {
-    handle: Option<tokio::task::JoinHandle<Result<SupportedMessage, StatusCode>>>,
+    handle: Option<tokio::task::JoinHandle<Done>>,
     late: bool,
     /// transport request id once the request has been taken from the channel
     rid: Option<u32>,
@@ -216,6 +240,10 @@ struct R {
     /// the implementation delivers as a response to request `rid` must have arrived in chunks for `rid`
     seen_for_rid: BTreeMap<u32, Vec<u32>>,
     queued: usize,
+    /// what is in the request channel, oldest first: the request waiting for a response, if any
+    channel: std::collections::VecDeque<Option<usize>>,
+    /// instant that deadlines given in ops are relative to
+    base: Instant,
     closed: bool,
     max_inflight: usize,
     /// status the requests must get from the `close` that is being executed
@@ -236,6 +264,8 @@ impl R {
             reqs: Vec::new(),
             seen_for_rid: BTreeMap::new(),
             queued: 0,
+            channel: std::collections::VecDeque::new(),
+            base: Instant::now(),
             closed: false,
             max_inflight: 0,
             closing: None,
@@ -263,6 +293,9 @@ impl R {
             let h = self.reqs[i].handle.take().unwrap();
             let r = self.rt.block_on(h).expect("join");
             let o = match r {
+                Done::NoResponse(Ok(())) => Outcome::Queued,
+                Done::NoResponse(Err(e)) => Outcome::Err(e.bits()),
+                Done::Response(r) => match r {
                 Ok(SupportedMessage::ReadResponse(r)) => {
                     let marker = r.response_header.request_handle;
                     let payload = match r.results.as_ref().and_then(|v| v.first()).and_then(|dv| dv.value.as_ref()) {
@@ -273,6 +306,7 @@ impl R {
                 }
                 Ok(_) => Outcome::Response(u32::MAX, "?".to_string()),
                 Err(e) => Outcome::Err(e.bits()),
+                },
             };
             // ---------------- the property, on this completion ----------------
             let req = &self.reqs[i];
@@ -309,6 +343,7 @@ impl R {
                     }
                 }
                 Outcome::Err(_) => Verdict::Ok,
+                Outcome::Queued => Verdict::Ok,
             };
             if matches!(verdict, Verdict::Ok) {
                 verdict = v;
@@ -320,6 +355,7 @@ impl R {
                 match o {
                     Outcome::Response(m, p) => format!("r{}/{}", m, p),
                     Outcome::Err(e) => format!("e{}", e),
+                    Outcome::Queued => "q".to_string(),
                 }
             ));
         }
@@ -415,6 +451,7 @@ impl Runner for R {
                 self.transport = Some(t);
                 self.sender = Some(s);
                 self.max_inflight = mi;
+                self.base = Instant::now();
                 let (st, v) = self.collect("reset");
                 (format!("ok {}", st), v)
             }
@@ -429,7 +466,10 @@ impl Runner for R {
                     timestamps_to_return: TimestampsToReturn::Neither,
                     nodes_to_read: None,
                 };
-                let handle = self.rt.spawn(async move { sender.send(request.into(), timeout).await });
+                let handle = self.rt.spawn(async move { Done::Response(sender.send(request.into(), timeout).await) });
+                if !self.closed {
+                    self.channel.push_back(Some(self.reqs.len()));
+                }
                 self.reqs.push(Req {
                     handle: Some(handle),
                     late,
@@ -441,6 +481,31 @@ impl Runner for R {
                     self.queued += 1;
                 }
                 let (st, v) = self.collect("submit");
+                (format!("ok {}", st), v)
+            }
+            ["submitnr", late] => {
+                let late = *late == "1";
+                let sender = self.sender.clone().unwrap();
+                let timeout = if late { Duration::ZERO } else { Duration::from_secs(86_400) };
+                let request = ReadRequest {
+                    request_header: RequestHeader::dummy(),
+                    max_age: 0.0,
+                    timestamps_to_return: TimestampsToReturn::Neither,
+                    nodes_to_read: None,
+                };
+                let handle = self.rt.spawn(async move { Done::NoResponse(sender.send_no_response(request.into(), timeout).await) });
+                if !self.closed {
+                    self.channel.push_back(None);
+                    self.queued += 1;
+                }
+                self.reqs.push(Req {
+                    handle: Some(handle),
+                    late,
+                    rid: None,
+                    expired: false,
+                    outcome: None,
+                });
+                let (st, v) = self.collect("submitnr");
                 (format!("ok {}", st), v)
             }
             ["pump"] => {
@@ -456,9 +521,9 @@ impl Runner for R {
                 };
                 let txt = match polled {
                     Poll::Ready(Some((_msg, rid))) => {
-                        // FIFO: the oldest request not yet taken got this request id
-                        if let Some(r) = self.reqs.iter_mut().find(|r| r.rid.is_none() && r.outcome.is_none() && r.handle.is_some()) {
-                            r.rid = Some(rid);
+                        // FIFO: the oldest message in the channel got this request id
+                        if let Some(Some(i)) = self.channel.pop_front() {
+                            self.reqs[i].rid = Some(rid);
                         }
                         self.queued = self.queued.saturating_sub(1);
                         format!("sent {}", rid)
@@ -479,16 +544,29 @@ impl Runner for R {
             ["sweep"] => {
                 let next = self.transport.as_mut().unwrap().next_timeout();
                 let (st, v) = self.collect("sweep");
-                (format!("ok next={} {}", b(next.is_some()), st), v)
+                // deadlines are whole multiples of 100 s relative to the start of the case
+                let nx = match next {
+                    None => "-".to_string(),
+                    Some(t) => {
+                        let secs = t.saturating_duration_since(self.base).as_secs_f64();
+                        format!("{}", ((secs / 100.0).round() as i64) * 100)
+                    }
+                };
+                (format!("ok next={} {}", nx, st), v)
             }
-            ["expire", rid] => {
+            ["deadline", rid, k] => {
                 let rid: u32 = rid.parse().unwrap();
-                let past = Instant::now() - Duration::from_secs(1);
-                let ok = self.transport.as_mut().unwrap().set_deadline(rid, past);
+                let k: i64 = k.parse().unwrap();
+                let at = if k >= 0 {
+                    self.base + Duration::from_secs(k as u64)
+                } else {
+                    self.base.checked_sub(Duration::from_secs((-k) as u64)).unwrap_or(self.base)
+                };
+                let ok = self.transport.as_mut().unwrap().set_deadline(rid, at);
                 if ok {
                     for r in self.reqs.iter_mut() {
                         if r.rid == Some(rid) && r.outcome.is_none() {
-                            r.expired = true;
+                            r.expired = k <= 0;
                         }
                     }
                 }
@@ -534,12 +612,22 @@ impl Runner for R {
                 (format!("{} {}", if r.is_ok() { "ok" } else { "err" }, st), v)
             }
             ["errmsg", code] => {
-                let code: u32 = code.parse().unwrap();
-                let r = self
-                    .transport
-                    .as_mut()
-                    .unwrap()
-                    .handle_incoming_message(Message::Error(ErrorMessage::from_status_code(StatusCode::from_bits_truncate(code))));
+                let msg = match *code {
+                    "ack" => Message::Acknowledge(AcknowledgeMessage {
+                        message_header: MessageHeader::new(MessageType::Acknowledge),
+                        protocol_version: 0,
+                        receive_buffer_size: 8192,
+                        send_buffer_size: 8192,
+                        max_message_size: 0,
+                        max_chunk_count: 0,
+                    }),
+                    "hello" => Message::Hello(HelloMessage::new("opc.tcp://127.0.0.1:4855/", 8192, 8192, 0, 0)),
+                    code => {
+                        let code: u32 = code.parse().unwrap();
+                        Message::Error(ErrorMessage::from_status_code(StatusCode::from_bits_truncate(code)))
+                    }
+                };
+                let r = self.transport.as_mut().unwrap().handle_incoming_message(msg);
                 let (st, v) = self.collect("errmsg");
                 (format!("{} {}", if r.is_ok() { "ok" } else { "err" }, st), v)
             }
@@ -550,6 +638,7 @@ impl Runner for R {
                 let _ = self.rt.block_on(t.close(status));
                 self.closed = true;
                 self.queued = 0;
+                self.channel.clear();
                 self.closing = Some(if status.is_good() { StatusCode::BadConnectionClosed.bits() } else { st });
                 let (s, v) = self.collect("close");
                 self.closing = None;
